@@ -414,6 +414,15 @@ func inDomain(word string, o Opts, t Tree) bool {
 		}
 	}
 	comps := strings.Split(word, "/")
+	nup := 0
+	for _, c := range comps {
+		if c == ".." {
+			nup++
+		}
+	}
+	if nup > 1 {
+		return false // would leave the per-tree scratch directory (harness artefact: the driver files live above it)
+	}
 	for i, c := range comps {
 		if i > 0 && !strings.ContainsAny(c, "*?[") {
 			// class literal_component_dangling_symlink: a literal component after a glob one names a dangling symlink
@@ -427,6 +436,19 @@ func inDomain(word string, o Opts, t Tree) bool {
 		}
 		if c == "" && i > 0 && i < len(comps)-1 {
 			return false // class double_slash_kept: bash keeps "//" after a literal component
+		}
+		if c == "**" && i > 0 && i < len(comps)-1 && o.Star {
+			// class globstar_symlink_after_prefix: bash 5.2 follows symlinks to directories below "**" when the
+			// "**" has a directory prefix and more components follow (./**/x finds ./ldir/x), but not for a leading "**"
+			for _, e := range t {
+				if e.Kind == "l" {
+					if p, err := t.resolve(e.Path, 8); err == nil {
+						if k, _ := t.kind(p); k.Kind == "d" {
+							return false
+						}
+					}
+				}
+			}
 		}
 		if c == "**" && i > 0 && o.Star {
 			prev := comps[i-1]
@@ -460,6 +482,7 @@ var witnesses = []struct{ Class, Script string }{
 	{"globstar_after_glob_component", "shopt -s globstar\nprintf '%s\\n' d*/**"},
 	{"globstar_repeated", "shopt -s globstar\nprintf '%s\\n' **/**"},
 	{"double_slash_kept", "printf '%s\\n' dir//*"},
+	{"globstar_symlink_after_prefix", "shopt -s globstar\nprintf '%s\\n' ./**/x"},
 	{"literal_component_dangling_symlink", "printf '%s\\n' */dangling"},
 	// repaired by fix: commits
 	{"", "printf '%s\\n' ?x"},
